@@ -285,3 +285,68 @@ impl Prop for C02 {
         out
     }
 }
+
+/// Round trip of an arbitrary accepted text (used by the fuzz target): parse, serialise, read the
+/// serialisation with the independent reader, parse it again: same bytes.
+pub fn roundtrip_raw(text: &[u8]) -> Outcome {
+    let mut out = Outcome::default();
+    let first = match pocket_parse_event(text, 70_000 + text.len(), 0xC3) {
+        Ok(Ok(p)) => p,
+        Ok(Err(_)) => {
+            out.label("rejected");
+            return out;
+        }
+        Err(_) => {
+            out.label("panic(C03)");
+            return out;
+        }
+    };
+    // only events whose strings are valid UTF-8 are in scope
+    let utf8 = first.tags.iter().flatten().all(|s| std::str::from_utf8(s).is_ok()) && std::str::from_utf8(&first.content).is_ok();
+    if !utf8 {
+        out.label("non-utf8-strings");
+        return out;
+    }
+    out.nontrivial = true;
+    let mut buf = vec![0u8; first.bytes.len()];
+    let js = match guard("Event::as_json", || {
+        buf.copy_from_slice(&first.bytes);
+        let e = unsafe { Event::delineate(&buf) }.map_err(|e| e.to_string())?;
+        e.as_json().map_err(|e| e.to_string())
+    }) {
+        Ok(Ok(j)) => j,
+        Ok(Err(e)) => {
+            out.fail("C02:as_json-failed", e);
+            return out;
+        }
+        Err(f) => {
+            out.fail(format!("C02:{}", f.key), f.detail);
+            return out;
+        }
+    };
+    let view = match event_view(&js) {
+        Some(v) if v.end == js.len() && v.well_typed => v,
+        _ => {
+            out.fail("C02:as_json-invalid", format!("independent reader rejects as_json output: {}", String::from_utf8_lossy(&js)));
+            return out;
+        }
+    };
+    let mut exp = crate::props::c01::Parsed { consumed: js.len(), bytes: vec![], ..first };
+    exp.canary_ok = true;
+    if let Some((k, d)) = compare_with_view(&exp, &view) {
+        out.fail(format!("C02:as_json:{k}"), d);
+        return out;
+    }
+    match pocket_parse_event(&js, exp.id.len() + 70_000 + js.len(), 0x11) {
+        Ok(Ok(p)) => {
+            let orig = &buf;
+            if p.bytes != *orig {
+                let off = first_diff(orig, &p.bytes).unwrap_or(0);
+                out.fail(format!("C02:roundtrip:{}", region(off, 144 + crate::model::tags_size(view.tags.as_ref().unwrap()))), format!("from_json(as_json(e)) differs from e at offset {off}"));
+            }
+        }
+        Ok(Err(e)) => out.fail(format!("C02:roundtrip-rejected:{e}"), format!("from_json rejects as_json output: {}", String::from_utf8_lossy(&js))),
+        Err(f) => out.fail(format!("C02:{}", f.key), f.detail),
+    }
+    out
+}
